@@ -151,13 +151,51 @@ let show_err = function
   | EIncomparable -> "Incomparable"
   | EUnmodelled -> "Unmodelled"
 
+let rec atm_of (x : sexp) : atm =
+  match x with
+  | L [A "avar"; v; L insts] -> AVar (str v, List.map ty_of insts)
+  | L [A "anum"; A p; A q] -> ANum { qnum = z_of_int (int_of_string p); qden = pos_of_int (int_of_string q) }
+  | L [A "astr"; s] -> AStr (str s)
+  | L [A "abool"; A b] -> ABool (b = "true")
+  | L [A "alam"; v; t; b] -> ALam (str v, ty_of t, atm_of b)
+  | L [A "aapp"; f; a] -> AApp (atm_of f, atm_of a)
+  | L [A "alet"; v; A k; e; b] -> ALet (str v, nat_of_int (int_of_string k), atm_of e, atm_of b)
+  | L [A "aif"; c; t; e] -> AIf (atm_of c, atm_of t, atm_of e)
+  | L [A "aarr"; t; L es] -> AArr (ty_of t, List.map atm_of es)
+  | L (A "arec" :: fs) -> ARec (List.map (function L [f; e] -> (str f, atm_of e) | _ -> failwith "bad field") fs)
+  | L [A "aproj"; e; f] -> AProj (atm_of e, str f)
+  | L [A "atag"; t; L tags] -> ATag (str t, List.map str tags)
+  | L [A "amatch"; e; t; L bs] ->
+      AMatch (atm_of e, ty_of t, List.map (function L [t; b] -> (str t, atm_of b) | _ -> failwith "bad branch") bs, None)
+  | L [A "amatch"; e; t; L bs; d] ->
+      AMatch (atm_of e, ty_of t, List.map (function L [t; b] -> (str t, atm_of b) | _ -> failwith "bad branch") bs, Some (atm_of d))
+  | L [A "aprim"; A o; L insts] -> APrim (prim_of o, List.map ty_of insts)
+  | L [A "aannt"; e; t] -> AAnnT (atm_of e, ty_of t)
+  | L [A "auntyped"; u] -> AUntyped (tm_of u)
+  | L [A "acast"; e; t] -> ACast (atm_of e, ty_of t)
+  | _ -> failwith "bad certificate"
+
+(* cert mode: <certificate> TAB <type> TAB <term>.  The certificate must be accepted by the extracted
+   [check_deriv] at the type, and its erasure must be the very term the evaluator runs. *)
+let cert_line (line : string) : string =
+  match String.split_on_char '\t' line with
+  | [c; t; m] ->
+      let a = atm_of (parse c) in
+      let ty = ty_of (parse t) in
+      let tm = tm_of (parse m) in
+      if erase a <> tm then "CERT erase-mismatch"
+      else if check_deriv model_sig a ty then "CERT ok" else "CERT rejected"
+  | _ -> "CERT bad-input"
+
 let () =
-  let fuel = nat_of_int (if Array.length Sys.argv > 1 then int_of_string Sys.argv.(1) else 400) in
+  let cert = Array.length Sys.argv > 1 && Sys.argv.(1) = "cert" in
+  let fuel = nat_of_int (if Array.length Sys.argv > 1 && not cert then int_of_string Sys.argv.(1) else 400) in
   try
     while true do
       let line = input_line stdin in
       let out =
         try
+          if cert then cert_line line else
           match run fuel (tm_of (parse line)) with
           | Ok d -> "OK " ^ show d
           | Err e -> "ERR " ^ show_err e
